@@ -374,14 +374,16 @@ def call(w, op, payload, timeout=120):
 def translators(ctx):
     """the three regenerated tables of DESIGN 4.1, each failing closed on its own (-> recorded as translator_fallback;
     the hand model + correspondences + the strict IDL parse of real footers remain)"""
-    from translators import idl2coq, specs2coq, callsites2coq
+    from translators import idl2coq, specs2coq, callsites2coq, enums2coq
     gen = ctx.gen_dir
     q = [(gen, "PqGen")]
     fp = os.path.join(C.REPO, "fastparquet")
     jobs = [
         ("idl2coq", "GenIdl.v", lambda: idl2coq.translate(os.path.join(fp, "parquet.thrift"), name="table"), "GenIdlProofs.v"),
         ("specs2coq", "GenSpecs.v", lambda: specs2coq.translate(os.path.join(fp, "cencoding.pyx")), "GenSpecsProofs.v"),
-        ("callsites2coq", "GenCallsites.v", lambda: callsites2coq.translate([os.path.join(fp, f) for f in ("writer.py", "util.py", "api.py")]),
+        ("enums2coq", "GenEnums.v", lambda: enums2coq.translate(os.path.join(fp, "parquet_thrift", "parquet", "ttypes.py")), "GenEnumsProofs.v"),
+        ("callsites2coq", "GenCallsites.v", lambda: callsites2coq.translate([os.path.join(fp, f) for f in ("writer.py", "util.py", "api.py")],
+                                                                           enum_paths=sorted(os.path.join(fp, f) for f in os.listdir(fp) if f.endswith(".py"))),
          "GenCallsitesProofs.v"),
     ]
     for name, out, fn, proofs in jobs:
